@@ -24,7 +24,7 @@ ASSUMPTIONS = [
     "Inv is assumed in every pre-state (it is the induction hypothesis; its preservation by each handler is an obligation); events reach a "
     "stream only while it is registered in HttpLayer.streams (after DropStream HttpLayer delivers nothing but the stream's own command completions); "
     "events already sitting in the stream's paused-event queue at that moment are NOT covered by this assumption - they are contracted separately "
-    "(scenario queued_events_drained_after_resume) and that contract fails on the unchanged tree (KF-C03-1)",
+    "(scenario queued_events_drained_after_resume); that contract failed on the pinned tree (KF-C03-1) and holds since fix 228a104d0",
     "response events reach a stream only after it contacted the upstream (client_state in stream_request_body/done/errored): HttpLayer routing",
     "validate_request / validate_headers (C01) are summarised: they return/raise for an arbitrary subset of messages",
     "flows are request/response flows: CONNECT and protocol upgrades (101 with websocket/rawtcp enabled) are outside the outcome clause; "
@@ -897,10 +897,8 @@ def s_drain(vc):
         f = HOOK_FLAG.get(n)
         if f is None:
             continue
-        if f == "rs":
-            vc.ensure_kf(f"order.hook{i}.rs.allowed", allowed(gg, f), "KF-C03-1", K)
-        else:
-            vc.ensure(f"order.hook{i}.{f}.allowed", allowed(gg, f))
+        # (the client_error_first order was known finding KF-C03-1; repaired in /repo by fix 228a104d0: unconditional now)
+        vc.ensure(f"order.hook{i}.{f}.allowed", allowed(gg, f))
         gg[f] = True
         i += 1
     vc.ensure("one_outcome_at_least", Or(gg["rs"], gg["err"]))
